@@ -66,11 +66,12 @@ FAMILIES = {
     "SQ6": dict(BASE, Tenants=["t1"], Providers=["p1"], Auditors=[], DSeqs=[1, 6], GSeqs=[1], OSeqs=[1],
                 GroupChoices="GroupChoicesS", DepositChoices=[1, 2], PriceChoices=[0, 1, 3], AmountChoices=[1],
                 BidMinDeposit=2, BidDepositChoices=[1, 2], Versions=[1], Gaps=[], InitCoins=6, MaxHeight=1, Variants=True),
-    # the tenant's and the provider's addresses are written in upper-case bech32 in every message (same accounts): the
-    # records are keyed by that spelling, and everything that decodes an id back from an escrow account must find them
-    "UP": dict(BASE, Tenants=["T1"], Providers=["P1"], Auditors=[], DSeqs=[1], GSeqs=[1], OSeqs=[1, 2],
+    # the tenant's address is written in upper-case bech32 in every message (the same account): the records are keyed by
+    # that spelling, and everything that decodes an id back (escrow hooks, event parsers) must find them. (A provider's
+    # spelling does not reach an id: CreateBid stores the bid under the canonical address.)
+    "UP": dict(BASE, Tenants=["T1"], Providers=["p1"], Auditors=[], DSeqs=[1], GSeqs=[1], OSeqs=[1, 2],
                GroupChoices="GroupChoicesS", DepositChoices=[2], PriceChoices=[1], AmountChoices=[1],
-               Versions=[1], Gaps=[1, 2], InitCoins=3, MaxHeight=4, UpperParties=["T1", "P1"]),
+               Versions=[1], Gaps=[1, 2], InitCoins=3, MaxHeight=4, UpperParties=["T1"]),
     "SB": dict(BASE, Tenants=["t1"], Providers=["t1"], Auditors=[], DSeqs=[1], GSeqs=[1], OSeqs=[1],
                GroupChoices="GroupChoicesS", DepositChoices=[2], PriceChoices=[1], AmountChoices=[],
                Versions=[1], Gaps=[], InitCoins=4, MaxHeight=1, Variants=True),
